@@ -10,7 +10,7 @@ COQ_PREAMBLE = ("Inductive lcase := CMgm (c : M_Mgm.case) (r : M_Mgm.rcase) | CM
                 "Definition lcheck (c : lcase) : bool := match c with CMgm x r => M_Mgm.check_case x && "
                 "M_Mgm.rcheck_case r | CMgm2 x => M_Mgm2.check_case2 x end.")
 OBLIGATIONS = ['mgm_no_move_1opt_partial', 'mgm_isolated_1opt', 'mgm_improvable_moves_partial', 'mgm2_no_move_1opt_refuted']
-N_QUICK, N_THOROUGH = 300, 4000
+N_QUICK, N_THOROUGH = 300, 6000
 PARALLEL = 8
 SHARD = 40
 RULE = ("random DCOPs of 1-6 variables (domains of 1-3 integer values), binary/ternary/unary constraints, duplicate "
